@@ -66,6 +66,9 @@ def step' (spec : Bool) (st : St) : List String → St × String
     let dup := match st.s.recB id with | some r => hasDup r.assets | none => false
     let r := doStep spec st (.userDone id (k = "right")) id "ok key-published"
     if r.2 = "err" then r else ({ r.1 with released := id :: r.1.released, dupDone := r.1.dupDone || dup }, r.2)
+  -- user completion sent to the ORIGIN channel: the origin record is the owner's own (creator =
+  -- owner) and is never completed by a user, whatever the key and the direction; nothing changes
+  | ["doneA", _, _] => (st, "err")
   | ["rdone", id, k] => doStep spec st (.robotDone id (k = "right")) id
   | ["cancelA", id, sender] =>
     let r := doStep spec st (.cancelA id sender) id
@@ -81,7 +84,7 @@ def clause : List String → String
   | "dump" :: _ => "balances_and_records"
   | "begin" :: _ => "begin_all_or_nothing"
   | "cancelA" :: _ | "cancelB" :: _ => "cancel_guarded"
-  | "done" :: _ | "rdone" :: _ => "done_guarded"
+  | "done" :: _ | "rdone" :: _ | "doneA" :: _ => "done_guarded"
   | _ => "setup"
 
 /-- judge: the spec machine (every listed asset released on completion), plus the release-once
